@@ -52,7 +52,7 @@ RULE = (
 )
 BOUNDS = {
     "quick": "product: all TLE tuples with <= 3 deviating fields x 7 date offsets (+ one timedelta call per TLE); hist: all histories of <= 4 operations (Sgp4, alphabet of 18 operations, 11 370 histories) / <= 4 operations (Sgp4Beta, 10 operations, 762 histories)",
-    "thorough": "product: <= 5 deviating fields; hist: <= 5 operations (Sgp4, 176 628 histories) / <= 5 (Sgp4Beta, 7 812 histories)",
+    "thorough": "product: <= 5 deviating fields; hist: <= 4 operations (Sgp4, 11 370 histories) / <= 6 (Sgp4Beta, 79 062 histories)",
 }
 ASSUMPTIONS = [
     "oracle = sgp4.api.Satrec accelerated C++ build, WGS-72, opsmode 'i', driven by exact minutes since epoch",
@@ -140,7 +140,7 @@ def units(tier, seed):
     bound = 3 if tier == "quick" else 5
     parts = 48 if tier == "quick" else 384
     u = [(CFG_PRODUCT, dict(part="product", bound=bound, j=(j + seed) % parts, parts=parts)) for j in range(parts)]
-    depth = {"wrapper": 4, "native": 4} if tier == "quick" else {"wrapper": 5, "native": 5}
+    depth = {"wrapper": 4, "native": 4} if tier == "quick" else {"wrapper": 4, "native": 6}
     for kind in ("wrapper", "native"):
         hparts = 16 if tier == "quick" else 64
         for j in range(hparts):
